@@ -7,6 +7,8 @@ echo "| seed | property | change (agent's summary) | needs | quick check of its 
 echo "|---|---|---|---|---|" >> $out
 for d in seeded/C*-*/; do
   id=$(basename $d); P=${id%%-*}
+  W=$(python3 -c "import json,sys; print(json.load(open('$d/meta.json')).get('detect_with',''))")
+  if [ -n "$W" ]; then P=$W; fi
   if grep -q '"status": "obsolete"' $d/meta.json; then det="OBSOLETE (see meta.json: neutralised or superseded by a later fix: commit)"; else det=$(tools/seed_detect.sh $d $P quick 2>&1 | tail -1); fi
   python3 - "$d" "$id" "$P" "$det" >> $out <<'PY'
 import json,sys
@@ -15,7 +17,8 @@ m=json.load(open(d+'meta.json'))
 m['detection']['quick']={'cmd':'tools/seed_detect.sh seeded/%s %s quick'%(id_,p),'result':det}
 json.dump(m,open(d+'meta.json','w'),indent=1)
 cut=lambda s,n:(s or '').replace('|','/').replace('\n',' ')[:n]
-print('| %s | %s | %s | %s | %s |' % (id_,p,cut(m.get('summary'),220),cut(m.get('needs'),160),cut(det,150)))
+if m.get('detect_with'): det = 'by %s: ' % m['detect_with'] + det
+print('| %s | %s | %s | %s | %s |' % (id_,m.get('property',p),cut(m.get('summary'),220),cut(m.get('needs'),160),cut(det,150)))
 PY
   echo "$id $det" | cut -c1-160
 done
